@@ -65,7 +65,8 @@ def oracle(ctx, case, steps, ctor_err):
 
 
 def classify(case, step):
-    return None
+    """A3: a five-membered ring written in lower case with [nH], cut across fragments"""
+    return 'A3' if case.get('pyrrole_ring_cut') else None
 
 
 def run(ctx):
@@ -73,9 +74,12 @@ def run(ctx):
     for i in range(ctx.budget(400, 8000)):
         if ctx.out_of_time():
             break
-        case = gen_mol.cut_case(rng, nmax=12 if ctx.tier == 'quick' else 24, anno_p=rng.choice([0, 0, 0, 0.2]))
+        case = gen_mol.cut_case(rng, nmax=12 if ctx.tier == 'quick' else 24, anno_p=rng.choice([0, 0, 0, 0.2]),
+                                pyrrole_p=0.15 if i % 3 == 0 else 0.0)
         suites.run_resolve_case(ctx, 'mol-cut', case, oracle=oracle)
         ctx.feature('frags=%d' % case['nfrag'])
+        if case.get('has_pyrrole'):
+            ctx.feature('pyrrole-ring' + (':cut' if case.get('pyrrole_ring_cut') else ':whole'))
 
 
 def corpus_case(ctx, payload):
@@ -98,4 +102,12 @@ def replay(payload):
 
 
 def finding_still_fails(f):
-    return False
+    import json, os, check
+    path = os.path.join(lib.VERIF, f.get('witness', ''))
+    if not os.path.exists(path):
+        return None
+    with open(path) as fh:
+        payload = json.load(fh)
+    ctx = check.Ctx(PROP, 'quick', 0, oracle_only=True)
+    suites.run_resolve_case(ctx, 'finding', payload['case'], oracle=oracle, compare=False)
+    return bool(ctx.failures)
